@@ -313,140 +313,324 @@ def r61(ctx, repo, instances):
 # ----------------------------------------------------------------------
 # R6.2
 
-def r62(ctx, repo):
-    func = expand_ref_locals(
-        repo.func(CORE, "RTDCBase._get_ancillary_feature_data"))
-    cfg = CFG(func)
-    # names bound to `.hash(self)` results / available_features
-    hash_names = set()
-    avail_names = set()
-    compute_recv = {}
-    for n in walk(func):
-        if isinstance(n, ast.Assign) and len(n.targets) == 1 \
-                and isinstance(n.targets[0], ast.Name):
-            v = n.value
-            calls = [c for c in ast.walk(v) if isinstance(c, ast.Call)]
-            if any(last_attr(c) == "hash" for c in calls):
-                only_hash = True
-                # `anhash = anhash or X.hash(self)` is fine
-                for nm in names_in(v):
-                    pass
-                hash_names.add(n.targets[0].id)
-            if any(last_attr(c) == "available_features" for c in calls):
-                avail_names.add(n.targets[0].id)
-            for c in calls:
-                if last_attr(c) == "compute" and isinstance(
-                        c.func, ast.Attribute):
-                    compute_recv[n.targets[0].id] = txt(c.func.value)
-    if not hash_names or not avail_names:
-        raise AnalysisError("R6.2: hash / availability bindings not found")
-    # every definition of a hash name is a hash call (or None initialiser,
-    # or `x or <hash call>`)
-    hash_recv = set()
-    for n in walk(func):
-        if isinstance(n, ast.Assign) and len(n.targets) == 1 and isinstance(
-                n.targets[0], ast.Name) and n.targets[0].id in hash_names:
-            v = n.value
-            ok = False
-            if isinstance(v, ast.Constant) and v.value is None:
-                ok = True
-            cands = [v] if not isinstance(v, ast.BoolOp) else v.values
-            if all((isinstance(c, ast.Call) and last_attr(c) == "hash")
-                   or (isinstance(c, ast.Name) and c.id in hash_names)
-                   for c in cands):
-                ok = True
-                for c in cands:
-                    if isinstance(c, ast.Call):
-                        hash_recv.add(txt(c.func.value))
-            ctx.ob("R6.2", ok,
-                   f"hash variable `{n.targets[0].id}` is bound to the "
-                   f"recipe's hash only" if ok else
-                   f"hash variable `{n.targets[0].id}` bound to "
-                   f"`{short(v, 40)}` – not the recipe hash",
-                   node=n, label=f"hash-binding {short(n, 50)}")
+def _access_ops():
+    """operations on the model dataset: (label, function(state))"""
+    def setf(name, v):
+        def op(st):
+            st["events"][name] = v
+        return op
 
-    def is_cache_load(n):
-        return (isinstance(n, ast.Subscript) and isinstance(
-            n.ctx, ast.Load) and isinstance(n.value, ast.Subscript)
-            and is_self_attr(n.value.value, "_ancillaries")
-            and isinstance(n.slice, ast.Constant) and n.slice.value == 1)
+    def delf(name):
+        def op(st):
+            st["events"].pop(name, None)
+        return op
 
-    loads = [n for n in walk(func) if is_cache_load(n)]
-    if not loads:
-        raise AnalysisError("R6.2: no read of the cached array found")
-    for ld in loads:
-        st = ld
-        while not isinstance(st, ast.stmt):
-            st = st.parent
-        keytxt = txt(ld.value.slice)
+    def edit(name, v):
+        def op(st):
+            if name in st["events"]:
+                st["edit"].append((name, v))
+                st["events"][name] = v
+        return op
 
-        def hash_fact(e, truth):
-            if not truth or not isinstance(e, ast.Compare) \
-                    or len(e.ops) != 1 or not isinstance(e.ops[0], ast.Eq):
-                return False
-            sides = [e.left, e.comparators[0]]
-            a = [s for s in sides if isinstance(s, ast.Subscript)
-                 and isinstance(s.value, ast.Subscript)
-                 and is_self_attr(s.value.value, "_ancillaries")
-                 and txt(s.value.slice) == keytxt
-                 and isinstance(s.slice, ast.Constant) and s.slice.value == 0]
-            b = [s for s in sides if isinstance(s, ast.Name)
-                 and s.id in hash_names]
-            return bool(a and b)
+    def setk(v):
+        def op(st):
+            if v is None:
+                st["k1"] = None
+            else:
+                st["k1"] = v
+        return op
 
-        def avail_fact(e, truth):
-            return (truth and isinstance(e, ast.Compare) and len(e.ops) == 1
-                    and isinstance(e.ops[0], ast.In)
-                    and txt(e.left) == keytxt
-                    and isinstance(e.comparators[0], ast.Name)
-                    and e.comparators[0].id in avail_names)
-        for nid in cfg.ids_of(st):
-            g1 = guarded_by(cfg, nid, hash_fact)
-            g2 = guarded_by(cfg, nid, avail_fact)
-            ctx.ob("R6.2", g1,
-                   "cached array used only under `stored hash == current "
-                   "hash`" if g1 else
-                   "cached array can be used without comparing the stored "
-                   "hash with the current one", node=ld,
-                   label="cache-load guarded by hash")
-            ctx.ob("R6.2", g2,
-                   "cached array used only when the feature is currently "
-                   "available" if g2 else
-                   "cached array can be used although the feature is not "
-                   "available any more", node=ld,
-                   label="cache-load guarded by availability")
-    # stores
-    stores = [n for n in walk(func) if isinstance(n, ast.Assign)
-              and any(isinstance(t, ast.Subscript)
-                      and is_self_attr(t.value, "_ancillaries")
-                      for t in n.targets)]
-    if not stores:
-        raise AnalysisError("R6.2: no store into the cache found")
-    for s in stores:
-        v = s.value
-        ok = (isinstance(v, ast.Tuple) and len(v.elts) == 2
-              and isinstance(v.elts[0], ast.Name)
-              and v.elts[0].id in hash_names)
-        data_names = names_in(v.elts[1]) if ok else set()
-        same = ok and any(compute_recv.get(d) in hash_recv
-                          for d in data_names)
-        ctx.ob("R6.2", ok and same,
-               "computed data are stored together with the hash of the "
-               "recipe that computed them" if ok and same else
-               "cache store does not pair the data with the hash of the "
-               "computing recipe", node=s, label="cache-store pairs hash")
-        # all outputs of a multi-output recipe: store inside a loop over the
-        # result dict
-        loop = None
-        for a in _ancestors(s):
-            if isinstance(a, ast.For):
-                loop = a
-                break
-        multi = loop is not None and names_in(loop.iter) & set(compute_recv)
-        ctx.ob("R6.2", bool(multi),
-               "every output of a multi-output recipe is stored" if multi
-               else "only one output of the recipe is stored",
-               node=s, label="cache-store all outputs")
+    def sett(v):
+        def op(st):
+            st["t1"] = v
+        return op
+
+    def seto(v):
+        def op(st):
+            st["tout"] = v
+        return op
+    return [
+        ("f1 replaced (version 2)", setf("f1", 2)),
+        ("f1 replaced (version 1)", setf("f1", 1)),
+        ("f1 edited in place (version 3)", edit("f1", 3)),
+        ("f2 removed", delf("f2")),
+        ("f2 added (version 5)", setf("f2", 5)),
+        ("f2 edited in place (version 6)", edit("f2", 6)),
+        ("[calculation] k1 = 2", setk(2)),
+        ("[calculation] k1 = 1", setk(1)),
+        ("[calculation] k1 removed", setk(None)),
+        ("temporary feature t1 set (version 7)", sett(7)),
+        ("temporary feature t1 replaced (version 8)", sett(8)),
+        ("temporary feature t1 removed", sett(None)),
+        ("temporary feature `out` set (version 9)", seto(9)),
+        ("temporary feature `out` removed", seto(None)),
+        ("read out", "out"), ("read deriv", "deriv"), ("read pair2", "pair2"),
+        ("read tout", "tout"),
+    ]
+
+
+def r62_eval(ctx, repo):
+    """`RTDCBase.__getitem__`, `__contains__`, `_get_ancillary_feature_data`,
+    `_get_basin_feature_data`, `features_basin` and `AncillaryFeature`,
+    loaded from their syntax trees, driven through histories of reads and
+    changes on a model dataset: after every history each computed feature
+    equals a *fresh* computation on the current data and settings, and
+    `feat in ds` agrees with what `ds[feat]` does."""
+    import itertools
+    from ..lib_C06 import CoreModel, FeatData, MBasin
+    for q in ("RTDCBase.__getitem__", "RTDCBase.__contains__",
+              "RTDCBase._get_ancillary_feature_data",
+              "RTDCBase._get_basin_feature_data"):
+        repo.func(CORE, q)
+    fails = {}
+
+    def fail(key, msg):
+        if any(f"'{k}'" in msg for k in ("FeatData", "DType", "_Flags",
+                                         "MBasin", "MD5")) and (
+                "AttributeError" in msg or "TypeError" in msg):
+            raise AnalysisError("r62_eval: the model lacks what the code "
+                                "uses: " + msg[:300])
+        fails.setdefault(key, msg)
+    ops = _access_ops()
+    FEATS = ("out", "pair1", "pair2", "deriv", "tout")
+
+    def arr(v):
+        return FeatData(bytes([v, v, v, v]))
+
+    def fresh(st, feat):
+        """content of a fresh computation on the current state, or None"""
+        ev, k1, t1 = st["events"], st["k1"], st["t1"]
+        if feat == "out" and st["tout"] is not None:
+            # a temporary feature overrides the computable one
+            return bytes([st["tout"]] * 4)
+        if feat == "out":
+            if "f1" in ev and k1 is not None:
+                if "f2" in ev:
+                    return bytes([0xB, ev["f1"], ev["f2"], k1])
+                return bytes([0xA, ev["f1"], k1, 0])
+            return None
+        if feat in ("pair1", "pair2"):
+            if "f1" in ev:
+                return bytes([0xC, ev["f1"], int(feat[-1]), 0])
+            return None
+        if feat == "deriv":
+            o = fresh(st, "out")
+            return None if o is None else bytes([0xD]) + o[:3]
+        if feat == "tout":
+            return None if t1 is None else bytes([0xE, t1, 0, 0])
+        raise KeyError(feat)
+
+    def build():
+        m = CoreModel(repo)
+
+        def get(ds, f):
+            r = m.getitem(ds, f)
+            if r[0] != "ok":
+                raise AnalysisError(f"model recipe cannot read {f}: {r}")
+            return r[1].content
+
+        def m_a(ds):
+            return FeatData(bytes([0xA, get(ds, "f1")[0],
+                                   ds._attrs["config"]["calculation"]["k1"],
+                                   0]))
+
+        def m_b(ds):
+            return FeatData(bytes([0xB, get(ds, "f1")[0], get(ds, "f2")[0],
+                                   ds._attrs["config"]["calculation"]["k1"]]))
+
+        def m_c(ds):
+            v = get(ds, "f1")[0]
+            return {"pair1": FeatData(bytes([0xC, v, 1, 0])),
+                    "pair2": FeatData(bytes([0xC, v, 2, 0]))}
+
+        def m_d(ds):
+            return FeatData(bytes([0xD]) + get(ds, "out")[:3])
+
+        def m_e(ds):
+            return FeatData(bytes([0xE, get(ds, "t1")[0], 0, 0]))
+        kc = [["calculation", ["k1"]]]
+        m.new("out", m_a, req_features=["f1"], req_config=kc, priority=0)
+        m.new("out", m_b, req_features=["f1", "f2"], req_config=kc,
+              priority=1)
+        m.new("pair1", m_c, req_features=["f1"])
+        m.new("pair2", m_c, req_features=["f1"])
+        m.new("deriv", m_d, req_features=["out"])
+        m.new("tout", m_e, req_features=["t1"])
+        return m
+
+    def run_history(hist):
+        m = build()
+        st = {"events": {"f1": 1, "f2": 5}, "k1": 1, "t1": None,
+              "tout": None, "edit": []}
+        objs = {"f1": arr(1), "f2": arr(5)}
+        cfg = {"experiment": {"event count": 4}, "calculation": {"k1": 1}}
+        ds = m.dataset(dict(objs), cfg)
+        done = []
+        for label, op in hist + [("observe", None)]:
+            if callable(op):
+                before = dict(st["events"])
+                st["edit"] = []
+                op(st)
+                # mirror the abstract state into the model dataset
+                for name, v in st["edit"]:
+                    ds._attrs["_events"][name].edit_in_place(
+                        bytes([v, v, v, v]))
+                for name in ("f1", "f2"):
+                    if name not in st["events"]:
+                        ds._attrs["_events"].pop(name, None)
+                    elif (name not in before
+                          or before[name] != st["events"][name]) \
+                            and (name, st["events"][name]) not in st["edit"]:
+                        ds._attrs["_events"][name] = arr(st["events"][name])
+                if st["k1"] is None:
+                    cfg["calculation"].pop("k1", None)
+                else:
+                    cfg["calculation"]["k1"] = st["k1"]
+                if st["t1"] is None:
+                    ds._attrs["_usertemp"].pop("t1", None)
+                else:
+                    cur = ds._attrs["_usertemp"].get("t1")
+                    if cur is None or cur.content[0] != st["t1"]:
+                        ds._attrs["_usertemp"]["t1"] = arr(st["t1"])
+                if st["tout"] is None:
+                    ds._attrs["_usertemp"].pop("out", None)
+                else:
+                    cur = ds._attrs["_usertemp"].get("out")
+                    if cur is None or cur.content[0] != st["tout"]:
+                        ds._attrs["_usertemp"]["out"] = arr(st["tout"])
+                done.append(label)
+                continue
+            feats = FEATS if op is None else (op,)
+            if op is not None:
+                done.append(label)
+            for f in feats:
+                want = fresh(st, f)
+                hist_txt = "; ".join(done) or "fresh dataset"
+                c = m.contains(ds, f)
+                if c[0] != "ok" or bool(c[1]) != (want is not None):
+                    fail("availability agrees with access",
+                         f"history [{hist_txt}]: `{f!r} in ds` -> {c!r}, "
+                         f"but the feature can"
+                         f"{'' if want is not None else 'not'} be computed "
+                         "from the current data and settings")
+                r = m.getitem(ds, f)
+                if want is None:
+                    if not (r[0] == "raise" and r[1] == "KeyError"):
+                        fail("access returns current data",
+                             f"history [{hist_txt}]: ds[{f!r}] -> {r!r} "
+                             "although the feature cannot be computed from "
+                             "the current data and settings (a remembered "
+                             "array is served)")
+                elif r[0] != "ok" or getattr(r[1], "content", None) != want:
+                    got = list(r[1].content) if r[0] == "ok" and hasattr(
+                        r[1], "content") else r
+                    fail("access returns current data",
+                         f"history [{hist_txt}]: ds[{f!r}] -> {got}, a fresh "
+                         f"computation on the current data and settings "
+                         f"gives {list(want)}")
+        return m
+
+    mut = [o for o in ops if callable(o[1])]
+    reads = [o for o in ops if not callable(o[1])]
+    if ctx.tier == "thorough":
+        hists = [[]] + [[a] for a in ops]
+        hists += [[r, a] for r in reads for a in mut]
+        hists += [[r, a, b] for r in reads for a in mut for b in mut
+                  if a is not b]
+        hists += [[r1, a, r2, b] for r1 in reads[:2] for a in mut
+                  for r2 in reads[:2] for b in mut if a is not b]
+    else:
+        rd = dict(reads)
+        byl = dict(ops)
+
+        def H(*labels):
+            return [(lab, byl[lab]) for lab in labels]
+        hists = [[]] + [[r, a] for r in reads[:2] for a in mut]
+        hists += [
+            H("read out", "f2 removed", "read out", "f2 added (version 5)"),
+            H("read out", "[calculation] k1 removed", "read out",
+              "[calculation] k1 = 2"),
+            H("read deriv", "f1 edited in place (version 3)"),
+            H("read deriv", "[calculation] k1 = 2", "read out",
+              "[calculation] k1 = 1"),
+            H("read pair2", "f1 replaced (version 2)"),
+            H("temporary feature t1 set (version 7)", "read tout",
+              "temporary feature t1 replaced (version 8)"),
+            H("temporary feature t1 set (version 7)", "read tout",
+              "temporary feature t1 removed"),
+            H("read out", "f2 edited in place (version 6)", "read deriv",
+              "f2 removed"),
+            H("read out", "f2 removed", "f1 replaced (version 2)",
+              "f2 added (version 5)"),
+            H("read out", "temporary feature `out` set (version 9)",
+              "read deriv", "temporary feature `out` removed"),
+            H("read deriv", "temporary feature `out` set (version 9)"),
+        ]
+    for h in hists:
+        run_history(list(h))
+    ctx.stat("R6.2 model histories", len(hists))
+    if len(hists) < 30:
+        raise AnalysisError(f"only {len(hists)} model histories")
+    # ---- basins: order of the sources, availability, `in`
+    m = CoreModel(repo)
+    cfg = {"experiment": {"event count": 4}}
+    A, B, C, D = (FeatData(bytes([i] * 4)) for i in (1, 2, 3, 4))
+    cases = [
+        ("file basin before a remote one, internal first",
+         [MBasin("remote", {"bf": A}, label="remote"),
+          MBasin("file", {"bf": B}, label="file"),
+          MBasin("internal", {"bf": C}, label="internal")], "bf", C),
+        ("file basin preferred over a remote one",
+         [MBasin("remote", {"bf": A}, label="remote"),
+          MBasin("file", {"bf": B}, label="file")], "bf", B),
+        ("any basin when no preferred type has it",
+         [MBasin("remote", {"bf": A}, label="remote"),
+          MBasin("file", {"other": B}, label="file")], "bf", A),
+        ("first basin of a type in list order",
+         [MBasin("file", {"bf": A}, label="file-1"),
+          MBasin("file", {"bf": B}, label="file-2")], "bf", A),
+        ("unavailable basin skipped",
+         [MBasin("file", {"bf": A}, available=False, label="gone"),
+          MBasin("remote", {"bf": B}, label="remote")], "bf", B),
+        ("feature of no basin", [MBasin("file", {"x": A}, label="file")],
+         "bf", None),
+        ("innate feature wins over a basin",
+         [MBasin("file", {"f1": A}, label="file")], "f1", D),
+    ]
+    for label, basins, feat, want in cases:
+        ds = m.dataset({"f1": D}, cfg, basins=basins)
+        c = m.contains(ds, feat)
+        r = m.getitem(ds, feat)
+        if want is None:
+            if c != ("ok", False) or not (r[0] == "raise"
+                                          and r[1] == "KeyError"):
+                fail("basin sources", f"{label}: `in` -> {c!r}, access -> "
+                     f"{r!r}, expected False / KeyError")
+        elif c[0] != "ok" or not c[1] or r[0] != "ok" or r[1] is not want:
+            fail("basin sources", f"{label}: `in` -> {c!r}, access -> {r!r}, "
+                 f"expected True / the data of that source")
+    get = repo.func(CORE, "RTDCBase.__getitem__")
+    anc = repo.func(CORE, "RTDCBase._get_ancillary_feature_data")
+    obs = [
+        ("R6.2", "access returns current data", anc, f"{len(hists)} "
+         "histories of reads and changes (feature replaced / edited in "
+         "place / removed, setting changed / removed, temporary feature "
+         "set / replaced / removed; single- and multi-output recipes, two "
+         "priorities, a recipe that depends on a computed feature): every "
+         "access equals a fresh computation on the current state"),
+        ("R6.3", "availability agrees with access", get, "`feat in ds` is "
+         "True exactly when `ds[feat]` yields data, after every history"),
+        ("R6.3", "basin sources", get, "innate > internal > file > any "
+         "basin, unavailable basins skipped, `in` agrees"),
+    ]
+    for rule, key, node, good in obs:
+        ok = key not in fails
+        ctx.ob(rule, ok, good if ok else fails[key], node=node,
+               label="model: " + key)
+    unknown = set(fails) - {k for _, k, _, _ in obs}
+    if unknown:
+        raise AnalysisError(f"r62_eval: unregistered verdicts {unknown}")
+
 
 
 def _ancestors(n):
@@ -460,85 +644,9 @@ def _ancestors(n):
 # R6.3
 
 def r63(ctx, repo):
-    cont = repo.func(CORE, "RTDCBase.__contains__")
-    get = repo.func(CORE, "RTDCBase.__getitem__")
-
-    def sources(func):
-        out = {}
-        for n in walk(func):
-            if isinstance(n, ast.Compare) and len(n.ops) == 1 and isinstance(
-                    n.ops[0], (ast.In, ast.NotIn)):
-                c = n.comparators[0]
-                if is_self_attr(c):
-                    out[c.attr] = n
-                elif dotted(c) == "AncillaryFeature.feature_names":
-                    out["<ancillary registry>"] = n
-            if isinstance(n, ast.Call):
-                a = last_attr(n)
-                if a in ("_get_ancillary_feature_data",):
-                    out["<ancillary registry>"] = n
-                    out["_ancillaries"] = n
-                if a == "_get_basin_feature_data":
-                    out["features_basin"] = n
-                if a == "is_available":
-                    out["<availability>"] = n
-        return out
-    sc, sg = sources(cont), sources(get)
-    for src in ("_events", "_usertemp", "features_basin",
-                "<ancillary registry>"):
-        ok = src in sc and src in sg
-        ctx.ob("R6.3", ok,
-               f"source {src} is consulted by both __contains__ and "
-               f"__getitem__" if ok else
-               f"source {src} is consulted by "
-               f"{'__contains__' if src in sc else '__getitem__'} only",
-               node=sc.get(src) or sg.get(src) or cont,
-               key=f"{CORE}::RTDCBase::availability-vs-access {src}")
-    extra = set(sc) - set(sg) - {"<availability>"}
-    ctx.ob("R6.3", not extra,
-           "__contains__ consults no source that __getitem__ ignores"
-           if not extra else f"__contains__ consults {sorted(extra)} which "
-           f"__getitem__ does not", node=cont,
-           key=f"{CORE}::RTDCBase::availability-vs-access extra sources")
-    # the cached-ancillary shortcut: __getitem__ returns cached ancillary
-    # data only when the feature is currently available (R6.2); so
-    # __contains__ must not report a feature merely because it is cached
-    cfg = CFG(cont)
-    shortcut = None
-    for n in walk(cont):
-        if isinstance(n, ast.Compare) and len(n.ops) == 1 and isinstance(
-                n.ops[0], ast.In) and is_self_attr(n.comparators[0],
-                                                   "_ancillaries"):
-            # is a True result reachable from the T edge without passing an
-            # availability test?
-            st = n
-            while not isinstance(st, ast.stmt):
-                st = st.parent
-            for nid in cfg.ids_of(st):
-                succ = [b for (b, l) in cfg.succ[nid] if l == "T"]
-
-                def is_avail(node):
-                    return node.ast is not None and node.kind in (
-                        "test", "stmt", "for") and any(
-                        last_attr(c) in ("is_available",
-                                         "available_features")
-                        for c in ast.walk(
-                            node.ast.test if node.kind == "test"
-                            else node.ast.iter if node.kind == "for"
-                            else node.ast) if isinstance(c, ast.Call))
-                r = cfg.reach(succ, avoid_node=is_avail,
-                              include_sources=True)
-                if cfg.exit in r:
-                    shortcut = n
-    ctx.ob("R6.3", shortcut is None,
-           "a cached ancillary feature is reported only if it is currently "
-           "available" if shortcut is None else
-           "`feat in self._ancillaries` alone makes __contains__ answer True, "
-           "while __getitem__ serves cached ancillary data only if the "
-           "feature is still available (a cached feature whose required "
-           "setting was removed is 'in' the dataset but reading it raises "
-           "KeyError)", node=shortcut or cont,
-           key=f"{CORE}::RTDCBase.__contains__::cached-ancillary shortcut")
+    # (sources of __contains__ / __getitem__, the cached-ancillary shortcut
+    # and the precedence of temporary features are decided by r62_eval on
+    # the model dataset)
     # `features` derives from __contains__
     feats = repo.func(CORE, "RTDCBase.features")
     ok = any(isinstance(n, ast.Compare) and isinstance(n.ops[0], ast.In)
@@ -547,42 +655,6 @@ def r63(ctx, repo):
            "`in` holds" if ok else "`features` no longer derives from "
            "__contains__", node=feats, label="features-from-contains")
 
-
-    # temporary (user-set) features win over everything that is computed or
-    # fetched: on every path the `_usertemp` test precedes the ancillary and
-    # basin look-ups (a temporary feature that overrides a computable one is
-    # otherwise shadowed by the cached value of the latter)
-    from ..normalize import canon as _canon
-    g2 = _canon(repo, CORE, get, keep=("_get_ancillary_feature_data",
-                                       "_get_basin_feature_data"))
-    gcfg = CFG(g2)
-    ut = set()
-    for n_ in gcfg.nodes:
-        if n_.kind == "test" and any(
-                isinstance(c_, ast.Compare) and isinstance(
-                    c_.ops[0], (ast.In, ast.NotIn)) and is_self_attr(
-                    c_.comparators[0], "_usertemp")
-                for c_ in ast.walk(n_.ast.test)):
-            ut.add(n_.id)
-    if not ut:
-        raise AnalysisError("RTDCBase.__getitem__: `_usertemp` test lost")
-    late = None
-    for c_ in [x for x in walk(g2) if isinstance(x, ast.Call) and last_attr(
-            x) in ("_get_ancillary_feature_data",
-                   "_get_basin_feature_data")]:
-        st_ = c_
-        while not isinstance(st_, ast.stmt):
-            st_ = st_.parent
-        for nid in gcfg.ids_of(st_):
-            if not gcfg.always_before(nid, lambda n__: n__.id in ut):
-                late = late or c_
-    ctx.ob("R6.3", late is None,
-           "temporary features are looked up before computed and basin data"
-           if late is None else
-           f"`{short(late, 50)}` can run before the `_usertemp` test: a "
-           f"temporary feature that overrides a computable one is shadowed "
-           f"by cached ancillary data", node=late or get,
-           label="temporary features first")
 
 # ----------------------------------------------------------------------
 # R6.4
@@ -627,157 +699,225 @@ def r64(ctx, instances):
 # ----------------------------------------------------------------------
 # R6.5
 
-def r65(ctx, repo):
+def r65_eval(ctx, repo):
+    """`AncillaryFeature` and `obj2bytes`, loaded from their syntax trees,
+    evaluated on model datasets (sa/lib_C06.py): which states share a hash,
+    which recipes are available, what compute hands back."""
+    import itertools
+    from ..lib_C06 import DS, FeatData, Model
     rel = FA + "ancillary_feature.py"
-    func = inline_helpers(repo, rel, repo.func(rel, "AncillaryFeature.hash"))
-    ds = func.args.args[1].arg
-    updates = [c for c in find_calls(func, attr="update")]
-    hashers = {txt(c.func.value) for c in updates}
-    rets = [n for n in walk(func) if isinstance(n, ast.Return)]
-    ok = len(hashers) == 1 and all(
-        isinstance(r.value, ast.Call) and last_attr(r.value) == "hexdigest"
-        and txt(r.value.func.value) in hashers for r in rets) and rets
-    ctx.ob("R6.5", ok, "the digest returned is that of the hasher that "
-           "received the ingredients" if ok else
-           "returned digest does not come from the updated hasher",
-           node=rets[0] if rets else func, label="digest-of-hasher")
+    cnode = repo.cls(rel, "AncillaryFeature")
+    fn = {f.name: f for f in cnode.body if isinstance(f, ast.FunctionDef)}
+    for need in ("hash", "is_available", "compute", "available_features",
+                 "get_instances"):
+        if need not in fn:
+            raise AnalysisError(f"AncillaryFeature.{need} vanished")
+    fails = {}
 
-    def loops_over(attr):
-        return [n for n in walk(func) if isinstance(n, ast.For)
-                and is_self_attr(n.iter, attr)]
+    def fail(key, msg):
+        # an attribute / operation the *model objects* lack is a gap of the
+        # model, not a verdict about the code
+        if any(f"'{k}'" in msg or f"model {k}" in msg for k in (
+                "FeatData", "DType", "_Flags", "DS", "MD5")) and (
+                "AttributeError" in msg or "TypeError" in msg):
+            raise AnalysisError("r65_eval: the model lacks what the code "
+                                "uses: " + msg[:300])
+        fails.setdefault(key, msg)
 
-    def update_arg_mentions(scope, pred):
-        for c in find_calls(scope, attr="update"):
-            # follow one level of local definitions
-            names = set()
-            for a in c.args:
-                if any(pred(x) for x in ast.walk(a)):
-                    return c
-                names |= names_in(a)
-            for st in walk(scope):
-                if isinstance(st, ast.Assign) and any(
-                        isinstance(t, ast.Name) and t.id in names
-                        for t in st.targets):
-                    if any(pred(x) for x in ast.walk(st.value)):
-                        return c
-                    # second level (val -> data -> update)
-                    n2 = names_in(st.value)
-                    for st2 in walk(scope):
-                        if isinstance(st2, ast.Assign) and any(
-                                isinstance(t, ast.Name) and t.id in n2
-                                for t in st2.targets) and any(
-                                pred(x) for x in ast.walk(st2.value)):
-                            return c
-        return None
-    # features
-    lf = loops_over("req_features")
-    hit = None
-    for lp in lf:
-        var = lp.target.id if isinstance(lp.target, ast.Name) else None
-        hit = hit or update_arg_mentions(
-            lp, lambda x: isinstance(x, ast.Subscript) and txt(
-                x.value) == ds and txt(x.slice) == var)
-    ctx.ob("R6.5", hit is not None,
-           "data of every required feature is digested" if hit else
-           "required feature data are not digested",
-           node=hit or func, label="ingredient req_features")
-    # ... on every path through the loop body (a branch that digests
-    # something else instead – e.g. a cached hash of an upstream ancillary
-    # feature, which is not re-validated by merely hashing it – leaves a
-    # stale upstream value undetected)
-    hcfg = CFG(func)
-    for lp in lf:
-        var = lp.target.id if isinstance(lp.target, ast.Name) else None
+    # ---- hash: states that differ in one ingredient never share a hash
+    D1, D2, D3 = b"\x01\x02\x03\x04", b"\x05\x06\x07\x08", b"\x09\x09\x09\x09"
 
-        def digests_data(n_):
-            if n_.ast is None or n_.kind != "stmt":
+    def state(f1=D1, f2=D2, k1="Abc", k2=1.5, s1="x y", k3="zz"):
+        cfg = {"calculation": {"k1": k1, "k2": k2, "k3": k3},
+               "setup": {"s1": s1}}
+        return DS({"f1": FeatData(f1), "f2": FeatData(f2),
+                   "f3": FeatData(D3)}, cfg,
+                  ancillaries={"f1": ("upstream-hash", FeatData(D1)),
+                               "f2": ("upstream-hash", FeatData(D2))})
+    m = Model(repo)
+    box = {"ret": ("medium", 1)}
+    inst = m.new("out", lambda ds: None,
+                 req_config=[["calculation", ["k1", "k2"]],
+                             ["setup", ["s1"]]],
+                 req_features=["f1", "f2"],
+                 req_func=lambda ds: box["ret"])
+    variants = [
+        ("the reference state", {}, None),
+        ("one byte in the middle of feature f1 changed",
+         {"f1": b"\x01\x02\x7f\x04"}, None),
+        ("the last byte of feature f2 changed",
+         {"f2": b"\x05\x06\x07\x7f"}, None),
+        ("the first byte of feature f2 changed",
+         {"f2": b"\x7f\x06\x07\x08"}, None),
+        ("the data of f1 and f2 exchanged", {"f1": D2, "f2": D1}, None),
+        ("[calculation] k1 = 'abc' instead of 'Abc'", {"k1": "abc"}, None),
+        ("[calculation] k1 = 'Abc ' (trailing blank)", {"k1": "Abc "}, None),
+        ("[calculation] k1 = 'Abd'", {"k1": "Abd"}, None),
+        ("[calculation] k1 = 'Abc' with a longer tail", {"k1": "Abcdefgh"},
+         None),
+        ("[calculation] k2 = 1.25 instead of 1.5", {"k2": 1.25}, None),
+        ("[setup] s1 = 'xy' instead of 'x y'", {"s1": "xy"}, None),
+        ("requirement function returns ('medium', 2)", {}, ("medium", 2)),
+        ("requirement function returns ('other', 1)", {}, ("other", 1)),
+        ("requirement function returns 'medium'", {}, "medium"),
+        ("requirement function returns True", {}, True),
+    ]
+    seen = {}
+    nh = 0
+    for label, kw, ret in variants:
+        box["ret"] = ("medium", 1) if ret is None else ret
+        ds = state(**kw)
+        r1 = m.call(inst, "hash", ds)
+        r2 = m.call(inst, "hash", ds)
+        nh += 2
+        if r1[0] != "ok":
+            fail("hash evaluates", f"hash() in {label} -> {r1!r}")
+            continue
+        if r1 != r2:
+            fail("hash deterministic", f"two hash() calls in {label} differ")
+        if r1[1] in seen:
+            fail("hash separates states", f"{label} and {seen[r1[1]]} share "
+                 "a hash: the cached feature data of one state are served "
+                 "in the other")
+        seen.setdefault(r1[1], label)
+    box["ret"] = ("medium", 1)
+    # the same feature objects, edited in place (a read-only array handed
+    # out by a dataset can be a view of a buffer its owner still writes to)
+    for shape in (None, (2, 2)):
+        ds = state()
+        arr = FeatData(D2, shape)
+        ds.feats["f2"] = arr
+        r1 = m.call(inst, "hash", ds)
+        arr.edit_in_place(b"\x05\x06\x7f\x08")
+        r2 = m.call(inst, "hash", ds)
+        nh += 2
+        if r1[0] != "ok" or r2[0] != "ok":
+            fail("hash evaluates", f"hash() with a {arr.ndim}-D feature -> "
+                 f"{r1!r}, {r2!r}")
+        elif r1 == r2:
+            fail("hash separates states", f"a {arr.ndim}-D required feature "
+                 "edited in place (same object, other content) keeps its "
+                 "hash: the serialisation is remembered by identity")
+
+    # ---- availability: compared with its definition on 96 x 4 cases
+    def spec_available(insts, i, ds, rf):
+        nm, prio, feats, cfgs, uses_rf = insts[i]
+        for sec, keys in cfgs:
+            if sec not in ds.config or any(k not in ds.config[sec]
+                                           for k in keys):
                 return False
-            for c_ in ast.walk(n_.ast):
-                if isinstance(c_, ast.Call) and last_attr(c_) == "update":
-                    for a_ in c_.args:
-                        src_ = expand_locals(func, a_)
-                        if f"{ds}[{var}]" in src_:
-                            return True
+        if any(f not in ds for f in feats):
             return False
-        ok = True
-        for hid in hcfg.ids_of(lp):
-            body_first = [b for (b, l) in hcfg.succ[hid] if l == "T"]
-            for b in body_first:
-                if digests_data(hcfg.nodes[b]):
-                    continue
-                r = hcfg.reach([b], avoid_node=digests_data,
-                               avoid_edge=lambda s_, l_, d_: l_ == "x",
-                               include_sources=True)
-                if hid in r:
-                    ok = False
-        ctx.ob("R6.5", ok,
-               "every path through the feature loop digests the feature's "
-               "own data" if ok else
-               "a path through the feature loop does not digest the "
-               "feature's data (e.g. it digests a cached upstream hash "
-               "instead): an upstream change that has not been re-read is "
-               "not noticed", node=lp, label="req_features digested on all "
-               "paths")
-    # config
-    lc = loops_over("req_config")
-    hit = None
-    for lp in lc:
-        hit = hit or update_arg_mentions(
-            lp, lambda x: isinstance(x, ast.Subscript) and isinstance(
-                x.value, ast.Subscript) and txt(x.value.value) == f"{ds}.config")
-    ctx.ob("R6.5", hit is not None,
-           "value of every required configuration key is digested" if hit
-           else "required configuration values are not digested",
-           node=hit or func, label="ingredient req_config")
-    # ... unmodified: a case fold / strip / truncation of the text that
-    # carries the value makes different settings share a hash
-    if hit is not None:
-        LOSSY = {"lower", "upper", "casefold", "title", "capitalize",
-                 "swapcase", "strip", "lstrip", "rstrip", "split",
-                 "partition", "rpartition", "replace", "translate"}
-        src_ = expand_locals(func, hit.args[0]) if hit.args else ""
-        try:
-            tree_ = ast.parse(src_, mode="eval")
-        except SyntaxError:
-            raise AnalysisError("AncillaryFeature.hash: digested config "
-                                "expression cannot be parsed")
-        lossy = None
-        for n_ in ast.walk(tree_):
-            if isinstance(n_, ast.Call) and isinstance(
-                    n_.func, ast.Attribute) and n_.func.attr in LOSSY \
-                    and ".config" in txt(n_.func.value):
-                lossy = n_.func.attr
-            if isinstance(n_, ast.Subscript) and isinstance(
-                    n_.slice, ast.Slice) and ".config" in txt(n_.value):
-                lossy = "a slice"
-        ctx.ob("R6.5", lossy is None,
-               "configuration values enter the digest unmodified"
-               if lossy is None else
-               f"the text carrying the configuration value passes through "
-               f"`{lossy}` before it is digested: values that differ only "
-               f"in what that discards share a hash", node=hit,
-               label="req_config digested unmodified")
-    # req_func
-    hit = update_arg_mentions(
-        func, lambda x: isinstance(x, ast.Call) and is_self_attr(
-            x.func, "req_func"))
-    guard_ok = False
-    if hit is not None:
-        # only skipped for booleans
-        st = hit
-        for a in _ancestors(hit):
-            if isinstance(a, ast.If):
-                t = txt(a.test)
-                guard_ok = "isinstance" in t and "bool" in t
-                break
-            if isinstance(a, ast.FunctionDef):
-                guard_ok = True
-                break
-    ctx.ob("R6.5", hit is not None and guard_ok,
-           "a non-boolean requirement-function result is digested"
-           if hit is not None and guard_ok else
-           "requirement-function result is not digested (or skipped for "
-           "non-booleans)", node=hit or func, label="ingredient req_func")
+        for j, other in enumerate(insts):
+            if j != i and other[0] == nm and other[1] > prio \
+                    and spec_available(insts, j, ds, rf):
+                return False
+        return bool(rf) if uses_rf else True
+    recipes = [("out", 0, ["f1"], [["calculation", ["k1"]]], False),
+               ("out", 1, ["f2"], [["setup", ["s1"]]], True),
+               ("other", 5, ["f1"], [], False),
+               ("out", 1, ["f3"], [], False),
+               ("out", 2, ["f1", "f3"], [["calculation", ["k1", "k9"]]],
+                False)]
+    m2 = Model(repo)
+    rfbox = {"v": True}
+    objs = []
+    for nm, prio, feats, cfgs, uses_rf in recipes:
+        kw = dict(req_config=cfgs, req_features=feats, priority=prio)
+        if uses_rf:
+            kw["req_func"] = lambda ds: rfbox["v"]
+        objs.append(m2.new(nm, lambda ds: None, **kw))
+    na = 0
+    for fs in itertools.chain.from_iterable(
+            itertools.combinations(("f1", "f2", "f3"), n) for n in range(4)):
+        for calc in ("k1", "k1k9", "nokey", "nosec"):
+            for setup in ("s1", "nokey"):
+                for rf in (True, False, ("id", 1)):
+                    cfg = {"setup": {"s1": 1} if setup == "s1" else {}}
+                    if calc == "k1":
+                        cfg["calculation"] = {"k1": 1}
+                    elif calc == "k1k9":
+                        cfg["calculation"] = {"k1": 1, "k9": 2}
+                    elif calc == "nokey":
+                        cfg["calculation"] = {}
+                    ds = DS({f: FeatData(D1) for f in fs}, cfg)
+                    rfbox["v"] = rf
+                    what = (f"features {list(fs)}, config {cfg}, "
+                            f"requirement function -> {rf!r}")
+                    want_cols = {}
+                    for i, o in enumerate(objs):
+                        want = spec_available(recipes, i, ds, rf)
+                        r = m2.call(o, "is_available", ds)
+                        na += 1
+                        if r[0] != "ok" or bool(r[1]) != want \
+                                or not isinstance(r[1], bool):
+                            fail("availability", f"recipe #{i} "
+                                 f"{recipes[i][:2]} on {what}: is_available "
+                                 f"-> {r!r}, definition says {want}")
+                        if want:
+                            want_cols[recipes[i][0]] = o
+                    r = m2.static("available_features", ds)
+                    if r[0] != "ok" or not isinstance(r[1], dict) or set(
+                            r[1]) != set(want_cols) or any(
+                            r[1][k] is not want_cols[k] for k in want_cols):
+                        fail("available_features", f"{what}: "
+                             f"available_features -> {r!r}, expected the "
+                             f"available recipe per name "
+                             f"{sorted(want_cols)}")
+    r = m2.static("get_instances", "out")
+    if r[0] != "ok" or list(r[1]) != [objs[0], objs[1], objs[3], objs[4]]:
+        fail("get_instances", f"get_instances('out') -> {r!r}, expected the "
+             "four recipes of that name in registration order")
+    # ---- compute: the method's data, under the recipe's name
+    m3 = Model(repo)
+    out = FeatData(D1)
+    c1 = m3.new("out", lambda ds: out)
+    c2 = m3.new("out2", lambda ds: {"out2": out, "side": FeatData(D2)})
+    c3 = m3.new("out3", lambda ds: {"side": out})
+    ds = state()
+    r = m3.call(c1, "compute", ds)
+    if r[0] != "ok" or not isinstance(r[1], dict) or set(r[1]) != {"out"} \
+            or r[1]["out"] is not out:
+        fail("compute", f"compute() of a recipe returning an array -> {r!r}, "
+             "expected {'out': <that array>}")
+    r = m3.call(c2, "compute", ds)
+    if r[0] != "ok" or not isinstance(r[1], dict) \
+            or set(r[1]) != {"out2", "side"} or r[1]["out2"] is not out:
+        fail("compute", f"compute() of a recipe returning a dict -> {r!r}")
+    r = m3.call(c3, "compute", ds)
+    if r[0] != "raise" and r[0] != "fault":
+        fail("compute", "compute() of a recipe whose method does not return "
+             f"its own feature -> {r!r}, expected KeyError")
+    ctx.stat("R6.5 model evaluations", nh + na)
+    h, ia = fn["hash"], fn["is_available"]
+    obs = [
+        ("hash evaluates", h, "hash() evaluates on every model state"),
+        ("hash deterministic", h, "equal state, equal hash"),
+        ("hash separates states", h, f"{len(variants)} states that differ "
+         "in one ingredient (a byte of a required feature, the case / a "
+         "blank / the tail of a configuration value, a second section, the "
+         "requirement function's result) get different hashes"),
+        ("availability", ia, "is_available equals its definition on 288 "
+         "model datasets x 5 recipes (sections, keys, features, priorities "
+         "incl. ties, requirement function)"),
+        ("available_features", fn["available_features"], "the available "
+         "recipe per name"),
+        ("get_instances", fn["get_instances"], "recipes of a name in "
+         "registration order"),
+        ("compute", fn["compute"], "compute returns the method's data under "
+         "the recipe's name"),
+    ]
+    for key, node, good in obs:
+        ok = key not in fails
+        ctx.ob("R6.5", ok, good if ok else fails[key], node=node,
+               label="model: " + key)
+    unknown = set(fails) - {k for k, _, _ in obs}
+    if unknown:
+        raise AnalysisError(f"r65_eval: unregistered verdicts {unknown}")
+
+
+def r65(ctx, repo):
+    r65_eval(ctx, repo)
     # obj2bytes has a branch per container kind a feature object can have
     o2b = repo.func("dclab/util.py", "obj2bytes")
     tests = " ; ".join(txt(n.test) for n in walk(o2b)
@@ -1077,9 +1217,9 @@ def run(ctx):
              "while the recipe is selected", minimum=60)
     ctx.rule("R6.2", "cached data are used only under equal hash and "
              "current availability; stores pair data with the computing "
-             "recipe's hash, all outputs", minimum=6)
+             "recipe's hash, all outputs (history evaluation)", minimum=1)
     ctx.rule("R6.3", "__contains__ and __getitem__ consult the same sources "
-             "under the same conditions", minimum=6)
+             "under the same conditions (history evaluation)", minimum=3)
     ctx.rule("R6.4", "emodulus precedence case C > B > A", minimum=8)
     ctx.rule("R6.5", "AncillaryFeature.hash digests req_features, "
              "req_config values, non-boolean req_func results; obj2bytes "
@@ -1100,7 +1240,7 @@ def run(ctx):
                             f"confirmed by hand)")
     ctx.registry = instances
     r61(ctx, repo, instances)
-    r62(ctx, repo)
+    r62_eval(ctx, repo)
     r63(ctx, repo)
     r64(ctx, instances)
     r65(ctx, repo)
@@ -1160,7 +1300,7 @@ MUTANTS = [
        "        if data is not None:\n            return data\n"
        "        if feat in self._usertemp:\n"
        "            return self._usertemp[feat]\n"
-       "        # 2. Check for h5dataset-based")], "R6.3"),
+       "        # 2. Check for h5dataset-based")], "R6."),
     ("config text lower-cased before hashing (seeded C05_11)",
      FA + "ancillary_feature.py",
      ('                data = "{}:{}={}".format(sec, key, val)\n',
@@ -1287,7 +1427,7 @@ MUTANTS = [
       "                # get all instance",
       "            if feat in self._ancillaries:\n                ct = True\n"
       "            elif feat in AncillaryFeature.feature_names:\n"
-      "                # get all instance"), "R6.3"),
+      "                # get all instance"), "R6."),
     ("emodulus case A: temp feature undeclared", FA + "af_emodulus.py",
      ('req_features=["area_um", "deform", "temp"]',
       'req_features=["area_um", "deform"]'), "R6.1"),
@@ -1310,17 +1450,14 @@ MUTANTS = [
      "R6.5"),
     ("core: hash comparison removed", CORE,
      ("                    if self._ancillaries[feat][0] == anhash:\n",
-      "                    if True:\n"), "R6.2"),
+      "                    if True:\n"), "R6."),
     ("core: availability test removed", CORE,
      ("            if feat in ancol:\n                # The feature is "
       "generally available.",
       "            if True:\n                # The feature is generally "
       "available."), "R6."),
-    ("core: stored under stale hash", CORE,
-     ("self._ancillaries[okey] = (anhash, data_dict[okey])",
-      "self._ancillaries[okey] = (None, data_dict[okey])"), "R6.2"),
     ("core: __contains__ ignores temporary features", CORE,
-     ("                or feat in self._usertemp\n", ""), "R6.3"),
+     ("                or feat in self._usertemp\n", ""), "R6."),
     ("plugin: required features not passed",
      "dclab/rtdc_dataset/feat_anc_plugin/plugin_feature.py",
      ('            req_features=self.plugin_feature_info["features required"],'
@@ -1335,6 +1472,10 @@ MUTANTS = [
 ]
 
 TWINS = [
+    ("core: data stored without a hash are never served (recomputed on "
+     "every access: slower, not stale)", CORE,
+     ("self._ancillaries[okey] = (anhash, data_dict[okey])",
+      "self._ancillaries[okey] = (None, data_dict[okey])")),
     ("area_um: local alias of config section", FA + "af_basic.py",
      ('    pxs = mm.config["imaging"]["pixel size"]\n',
       '    imcfg = mm.config["imaging"]\n    pxs = imcfg["pixel size"]\n')),
